@@ -57,6 +57,14 @@ def instances(tier, seed):
             add(kind='multistage', stage=si, op=op)
     for op2 in (('ST', 'AO'), ('AO', 'T')):
         add(kind='multistage', stage=1, op=op2)
+    # the FIRST query of a multi-stage OCP goes through a sub-stage (stage.sample before any solve): what the user declared stays as it is
+    for si in (0, 1):
+        add(kind='multistage', stage=si, op=(), first_query='substage')
+        add(kind='multistage', stage=si, op='ST', first_query='substage')
+    # the method is re-declared after a solve with a grid of ANOTHER density and the same N (checked against the ground truth of the final density:
+    # an evolved-versus-fresh comparison inside one process would be blind to state shared between grid objects)
+    for N_ in (3, 4):
+        add(kind='density-history', N=N_)
     meths = [('MS', 'rk', 1), ('SS', 'rk', 2), ('DC', None, 1)]
     # grids with localized time variables keep their own state in the method object; a grid='inf' constraint keeps per-interval conversions
     hgrids = [fam.G_UNI, fam.G_UNI, fam.G_UNI_LT, fam.G_FREE, fam.G_GEO_LOC_LT, fam.G_UNI_LT0]
@@ -198,10 +206,22 @@ def run_multistage(item):
     desc = dict(stages=stages, coupling=[('cont', 0, 1), ('wge', 1)], parent=[('w2',)])
     final = copy.deepcopy(desc)
     viol = []
+    def declared(m_):
+        return [(len(b_.stage.states), len(b_.stage.qstates), len(b_.stage.controls), len(b_.stage.algebraics), sum(len(v_) for v_ in b_.stage._constraints.values()),
+                 str(b_.stage._objective)) for b_ in m_.stage_builts]
     with quiet():
         m = c12.build(desc)
         m.ocp.solver('ipopt')
-        m.ocp._transcribed
+        before = declared(m)
+        if item.get('first_query') == 'substage':
+            m.stage_builts[si].stage.sample(m.stage_builts[si].xel[0], grid='control')
+        else:
+            m.ocp._transcribed
+        after = declared(m)
+        if before != after:
+            viol.append({'property': PROP, 'key': 'declaration-altered|%s' % (item.get('first_query') or 'ocp'), 'label': 'stage lists', 'cfg': 'MS+DC', 'spec': 'two stages (c12.stage_model)',
+                         'detail': 'the first query (%s) changed what the user declared: (states, quadrature states, controls, algebraics, constraints, objective) per stage before %s, after %s' % (
+                             'sample on sub-stage %d' % si if item.get('first_query') else 'on the Ocp', before, after)})
         bs = m.stage_builts[si]
         fs = final['stages'][si]
         for n_, op in enumerate(ops):
@@ -246,9 +266,64 @@ def run_multistage(item):
     return r
 
 
+def run_density_history(item):
+    """GROUND (DensityGrid integrates its density numerically: not encodable).  declare -> method(DensityGrid(d1)) -> sample -> method(DensityGrid(d2), same N)
+    -> sample: the control grid follows d2 (exact antiderivative); then a second, freshly written OCP with d3."""
+    import casadi as ca
+    import numpy as np
+    from rockit import Ocp, MultipleShooting, DirectCollocation
+    from rockit.sampling_method import DensityGrid
+    N = item['N']
+    tau = ca.MX.sym('tau')
+    dens = [('1+3 tau^2', 1 + 3 * tau ** 2, lambda s_: (s_ + s_ ** 3) / 2.0), ('4-3 tau', 4 - 3 * tau, lambda s_: (4 * s_ - 1.5 * s_ ** 2) / 2.5), ('1+2 tau', 1 + 2 * tau, lambda s_: (s_ + s_ ** 2) / 2.0)]
+    viol, proved = [], []
+
+    def grid_of(ocp):
+        with quiet():
+            ts = ocp.sample(ocp.t, grid='control')[1]
+        return [float(v) for v in np.array(ca.evalf(ts)).flatten()]
+
+    def judge(tag, tv, cum, name):
+        shares = [cum((v - 0.5) / 2.0) for v in tv]
+        if len(tv) == N + 1 and all(abs(shares[i] - i / N) < 1e-5 for i in range(N + 1)):
+            proved.append('%s: control grid equidistributes %s (ground)' % (tag, name))
+        else:
+            viol.append({'property': PROP, 'key': 'density-history|%s' % tag, 'label': 'DensityGrid(%s), N=%d' % (name, N),
+                         'detail': 'control grid %s: cumulative shares of the FINAL density %s at the nodes are %s, expected i/N' % ([round(v, 5) for v in tv], name, [round(v, 5) for v in shares])})
+    with quiet():
+        ocp = Ocp(t0=0.5, T=2.0)
+        x = ocp.state()
+        u = ocp.control()
+        ocp.set_der(x, u)
+        ocp.subject_to(ocp.at_t0(x) == 0)
+        ocp.add_objective(ocp.integral(u * u))
+        ocp.solver('ipopt')
+        ocp.method(MultipleShooting(N=N, M=1, grid=DensityGrid(dens[0][1])))
+    judge('first method', grid_of(ocp), dens[0][2], dens[0][0])
+    with quiet():
+        ocp.method(MultipleShooting(N=N, M=1, grid=DensityGrid(dens[1][1])))
+    judge('method re-declared with another density', grid_of(ocp), dens[1][2], dens[1][0])
+    with quiet():
+        ocp2 = Ocp(t0=0.5, T=2.0)
+        x2 = ocp2.state()
+        u2 = ocp2.control()
+        ocp2.set_der(x2, u2)
+        ocp2.add_objective(ocp2.integral(u2 * u2))
+        ocp2.solver('ipopt')
+        ocp2.method(DirectCollocation(N=N, M=1, degree=2, grid=DensityGrid(dens[2][1])))
+    judge('fresh OCP written later in the same process', grid_of(ocp2), dens[2][2], dens[2][0])
+    res = {'stats': {'unsat': 0, 'sat': 0, 'unknown': 0, 'queries': 0, 'solver_s': 0.0}, 'obligations': len(proved) + len(viol), 'discharged': len(proved), 'nontrivial': proved, 'violations': viol,
+           'twins_ok': 0, 'twins_bad': 0, 'shape': 'density-history N=%d' % N, 'sample': {'history': ['method(DensityGrid d1)', 'sample', 'method(DensityGrid d2)', 'sample', 'new OCP DensityGrid d3'], 'N': N}}
+    if viol:
+        res['status'] = 'violation'
+    return res
+
+
 def run(item):
     if item.get('kind') == 'multistage':
         return run_multistage(item)
+    if item.get('kind') == 'density-history':
+        return run_density_history(item)
     hist = item['history']
     spec, cfg = copy.deepcopy(item['spec']), copy.deepcopy(item['cfg'])
     state = {'max_iter': 0}
